@@ -17,9 +17,13 @@ class Item:
 _fsm_counter = [0]
 
 
-def gen_items(rng, g_comb, g_sync, tg_comb, tg_sync, depth, hist, allow_fsm=True, n=None, in_fsm=None, tg_by_dom=None):
+def gen_items(rng, g_comb, g_sync, tg_comb, tg_sync, depth, hist, allow_fsm=True, n=None, in_fsm=None, tg_by_dom=None,
+              fsm_watch=False):
     """returns a list of abstract items; expressions/targets are real amaranth values.
-    `in_fsm`: state names of the innermost enclosing FSM (then `m.next = …` items may be generated)"""
+    `in_fsm`: state names of the innermost enclosing FSM (then `m.next = …` items may be generated).
+    `fsm_watch` (C02 only; the other users keep their random streams): also generate calls of `fsm.ongoing(S)` inside
+    state bodies (`("watch", S)`) and between State blocks (6th element of the fsm item: the entries in order,
+    `("state", S, body)` / `("watch", S)`), so that a state can be first mentioned by `ongoing()`"""
     items = []
     n = n if n is not None else rng.randint(1, 4)
     for _ in range(n):
@@ -28,15 +32,29 @@ def gen_items(rng, g_comb, g_sync, tg_comb, tg_sync, depth, hist, allow_fsm=True
             items.append(("next", rng.choice(in_fsm)))
             hist["next"] = hist.get("next", 0) + 1
             continue
+        if fsm_watch and in_fsm and rng.random() < 0.08:
+            items.append(("watch", rng.choice(in_fsm)))
+            hist["ongoing_call"] = hist.get("ongoing_call", 0) + 1
+            continue
         if allow_fsm and depth > 0 and rng.random() < 0.12:
             _fsm_counter[0] += 1
             fid = _fsm_counter[0]
             names = rng.sample(["A", "B", "C", "D"], rng.randint(1, 4))
             states = [(nm, gen_items(rng, g_comb, g_sync, tg_comb, tg_sync, depth - 1, hist, allow_fsm=depth > 1,
-                                     in_fsm=names)) for nm in names]
+                                     in_fsm=names, fsm_watch=fsm_watch)) for nm in names]
             init = rng.choice(names) if rng.random() < 0.3 else None
             og = [(Signal(name=f"og{fid}_{k}"), rng.choice(names)) for k in range(rng.randint(0, 2))]
-            items.append(("fsm", f"fsm{fid}", init, states, og))
+            if fsm_watch:
+                entries = []
+                for nm, body in states:
+                    while rng.random() < 0.2:
+                        entries.append(("watch", rng.choice(names)))
+                    entries.append(("state", nm, body))
+                while rng.random() < 0.15:
+                    entries.append(("watch", rng.choice(names)))
+                items.append(("fsm", f"fsm{fid}", init, states, og, entries))
+            else:
+                items.append(("fsm", f"fsm{fid}", init, states, og))
             hist["fsm"] = hist.get("fsm", 0) + 1
             continue
         if depth <= 0 or r < 0.45:
@@ -62,8 +80,8 @@ def gen_items(rng, g_comb, g_sync, tg_comb, tg_sync, depth, hist, allow_fsm=True
                 c = g_comb.expr(rng.randint(0, 2))
                 if rng.random() < 0.15:
                     c = Const(rng.randint(0, 1), 1)           # constant conditions are kept rare but present
-                branches.append((c, gen_items(rng, g_comb, g_sync, tg_comb, tg_sync, depth - 1, hist, allow_fsm, in_fsm=in_fsm, tg_by_dom=tg_by_dom)))
-            els = gen_items(rng, g_comb, g_sync, tg_comb, tg_sync, depth - 1, hist, allow_fsm, in_fsm=in_fsm, tg_by_dom=tg_by_dom) if rng.random() < 0.5 else None
+                branches.append((c, gen_items(rng, g_comb, g_sync, tg_comb, tg_sync, depth - 1, hist, allow_fsm, in_fsm=in_fsm, tg_by_dom=tg_by_dom, fsm_watch=fsm_watch)))
+            els = gen_items(rng, g_comb, g_sync, tg_comb, tg_sync, depth - 1, hist, allow_fsm, in_fsm=in_fsm, tg_by_dom=tg_by_dom, fsm_watch=fsm_watch) if rng.random() < 0.5 else None
             items.append(("if", branches, els))
             hist[f"if{nb}{'e' if els is not None else ''}"] = hist.get(f"if{nb}{'e' if els is not None else ''}", 0) + 1
         else:
@@ -80,7 +98,7 @@ def gen_items(rng, g_comb, g_sync, tg_comb, tg_sync, depth, hist, allow_fsm=True
                     got_default = True
                 else:
                     pats = tuple(gen_expr.rand_pattern(rng, w) for _p in range(rng.randint(1, 3)))
-                cases.append((pats, gen_items(rng, g_comb, g_sync, tg_comb, tg_sync, depth - 1, hist, allow_fsm, in_fsm=in_fsm, tg_by_dom=tg_by_dom)))
+                cases.append((pats, gen_items(rng, g_comb, g_sync, tg_comb, tg_sync, depth - 1, hist, allow_fsm, in_fsm=in_fsm, tg_by_dom=tg_by_dom, fsm_watch=fsm_watch)))
             items.append(("switch", test, cases))
             hist["switch"] = hist.get("switch", 0) + 1
     return items
@@ -96,22 +114,35 @@ def build(m, items, fsms=None):
         _build(m, items, fsms)
     finally:
         if top:
-            for sig, fsm, sname in fsms.pop("__ongoing__", []):
+            watchers = fsms.pop("__ongoing__", [])
+            for sig, fsm, sname in watchers:
                 m.d.comb += sig.eq(fsm.ongoing(sname))
+            if watchers:
+                fsms["__watchers__"] = watchers        # in the order in which they were added to the module
     return fsms
 
 
-def _build(m, items, fsms):
+def fsm_entries(it):
+    """the entries of an fsm item in order: ("state", S, body) / ("watch", S)"""
+    return it[5] if len(it) > 5 else [("state", sn, body) for sn, body in it[3]]
+
+
+def _build(m, items, fsms, cur_fsm=None):
     build = _build
     for it in items:
         if it[0] == "next":
             m.next = it[1]
+        elif it[0] == "watch":
+            cur_fsm.ongoing(it[1])
         elif it[0] == "fsm":
-            _, name, init, states, og = it
+            name, init, og = it[1], it[2], it[4]
             with m.FSM(init=init, name=name) as fsm:
-                for sname, body in states:
-                    with m.State(sname):
-                        build(m, body, fsms)
+                for e in fsm_entries(it):
+                    if e[0] == "watch":
+                        fsm.ongoing(e[1])
+                    else:
+                        with m.State(e[1]):
+                            build(m, e[2], fsms, fsm)
             fsms[name] = fsm
             for sig, sname in og:
                 fsms.setdefault("__ongoing__", []).append((sig, fsm, sname))
@@ -123,17 +154,17 @@ def _build(m, items, fsms):
             for k, (c, body) in enumerate(branches):
                 ctxm = m.If(c) if k == 0 else m.Elif(c)
                 with ctxm:
-                    build(m, body, fsms)
+                    build(m, body, fsms, cur_fsm)
             if els is not None:
                 with m.Else():
-                    build(m, els, fsms)
+                    build(m, els, fsms, cur_fsm)
         elif it[0] == "switch":
             _, test, cases = it
             with m.Switch(test):
                 for pats, body in cases:
                     ctxm = m.Default() if pats is None else m.Case(*pats)
                     with ctxm:
-                        build(m, body, fsms)
+                        build(m, body, fsms, cur_fsm)
     return fsms
 
 
@@ -145,7 +176,7 @@ def ser_upat(p):
 
 def fsm_encoding(item):
     """state encodings in order of first mention (State entry, then `m.next` in its body, then ongoing())"""
-    _, name, init, states, og = item
+    states, og = item[3], item[4]
     order = []
 
     def mention(x):
@@ -154,7 +185,7 @@ def fsm_encoding(item):
 
     def walk(items):
         for it in items:
-            if it[0] == "next":
+            if it[0] in ("next", "watch"):
                 mention(it[1])
             elif it[0] == "if":
                 for _c, body in it[1]:
@@ -165,9 +196,10 @@ def fsm_encoding(item):
                 for _p, body in it[2]:
                     walk(body)
             # a nested FSM's `m.next` binds to that FSM, not to this one
-    for sname, body in states:
-        mention(sname)
-        walk(body)
+    for e in fsm_entries(item):
+        mention(e[1])
+        if e[0] == "state":
+            walk(e[2])
     for _sig, sname in og:
         mention(sname)
     return {nm: k for k, nm in enumerate(order)}
@@ -209,7 +241,7 @@ def ser_prog(items, dom, sigidx, fsm=None, _top=True):
                 st, enc = fsm
                 out.append(f"(= (sig {sigidx[id(st)]}) (c {enc[it[1]]} {len(st)} u))")
         elif it[0] == "fsm":
-            _, name, init, states, og = it
+            name, states = it[1], it[3]
             st = sigidx["fsm:" + name]
             enc = fsm_encoding(it)
             cs = " ".join(f"(((i {enc[sn]})) {ser_prog(body, dom, sigidx, (st, enc), _top=False)})" for sn, body in states)
@@ -233,6 +265,127 @@ def ser_prog(items, dom, sigidx, fsm=None, _top=True):
                     cs.append("((" + " ".join(ser_upat(p) for p in pats) + f") {ser_prog(body, dom, sigidx, fsm, _top=False)})")
             out.append(f"(sw {ser_value(test, sigidx)} {' '.join(cs)})")
     return " ".join(out)
+
+
+def ser_fprog(items, sigidx, fsms):
+    """the program *as written* for the Lean `FProg`: assignments with their domain, FSMs with their State blocks by
+    name, `m.next = S`, calls of `fsm.ongoing(S)`. `fsms`: name -> the real FSM object (for `fsm.state` and the signals
+    `fsm.ongoing(S)` returns — signals are data, not semantics)."""
+    out = []
+    for it in items:
+        if it[0] == "next":
+            out.append(f"(next {it[1]})")
+        elif it[0] == "watch":
+            out.append(f"(ongoing {it[1]})")
+        elif it[0] == "fsm":
+            name, init = it[1], it[2]
+            fsm = fsms[name]
+            og = " ".join(f"({sn} {sigidx[id(fsm.ongoing(sn))]})" for sn in fsm.encoding)
+            es = []
+            for e in fsm_entries(it):
+                if e[0] == "watch":
+                    es.append(f"(ongoing {e[1]})")
+                else:
+                    es.append(f"(state {e[1]} {ser_fprog(e[2], sigidx, fsms)})")
+            ini = f"(init {init})" if init is not None else "(init)"
+            out.append(f"(fsm {sigidx[id(fsm.state)]} sync {ini} (og {og}) {' '.join(es)})")
+        elif it[0] == "assign":
+            _, d, t, rhs = it
+            out.append(f"(= {d} {ser_value(t, sigidx)} {ser_value(rhs, sigidx)})")
+        elif it[0] == "if":
+            _, branches, els = it
+            bs = " ".join(f"({ser_value(c, sigidx)} {ser_fprog(body, sigidx, fsms)})" for c, body in branches)
+            e = f" (else {ser_fprog(els, sigidx, fsms)})" if els is not None else ""
+            out.append(f"(if {bs}{e})")
+        elif it[0] == "switch":
+            _, test, cases = it
+            cs = []
+            for pats, body in cases:
+                if pats is None:
+                    cs.append(f"(default {ser_fprog(body, sigidx, fsms)})")
+                else:
+                    cs.append("((" + " ".join(ser_upat(p) for p in pats) + f") {ser_fprog(body, sigidx, fsms)})")
+            out.append(f"(sw {ser_value(test, sigidx)} {' '.join(cs)})")
+    return " ".join(out)
+
+
+def fsm_shapes(items, hist, depth=1):
+    """histogram of the FSM shapes in a program (keys `fsm_*`)"""
+    def bump(k, n=1):
+        hist[k] = hist.get(k, 0) + n
+    for it in items:
+        if it[0] == "fsm":
+            entries = fsm_entries(it)
+            defined = [e[1] for e in entries if e[0] == "state"]
+            bump(f"fsm_states:{len(defined)}")
+            bump(f"fsm_depth:{depth}")
+            if it[2] is not None:
+                bump("fsm_explicit_init")
+                if it[2] != defined[0]:
+                    bump("fsm_init_not_first_defined")
+            enc = fsm_encoding(it)
+            first = it[2] if it[2] is not None else defined[0]
+            if enc[first] != 0:
+                bump("fsm_init_code_nonzero")
+            if list(enc) != defined:
+                bump("fsm_encoding_order_differs_from_definition_order")
+            n = len(enc)
+            if n & (n - 1) or n == 1:
+                bump("fsm_register_has_unused_codes")
+            # first mention of a state by m.next / ongoing() before its State block
+            seen, nb, ob = set(), False, False
+
+            def walk(body):
+                nonlocal nb, ob
+                for x in body:
+                    if x[0] == "next" and x[1] not in seen:
+                        nb = True; seen.add(x[1])
+                    elif x[0] == "watch" and x[1] not in seen:
+                        ob = True; seen.add(x[1])
+                    elif x[0] == "if":
+                        for _c, b in x[1]:
+                            walk(b)
+                        if x[2] is not None:
+                            walk(x[2])
+                    elif x[0] == "switch":
+                        for _p, b in x[2]:
+                            walk(b)
+            for e in entries:
+                if e[0] == "watch":
+                    if e[1] not in seen:
+                        ob = True; seen.add(e[1])
+                else:
+                    seen.add(e[1])
+                    walk(e[2])
+            if nb:
+                bump("fsm_next_before_define")
+            if ob:
+                bump("fsm_ongoing_before_define")
+            if not any(_has_next(e[2]) for e in entries if e[0] == "state"):
+                bump("fsm_without_next")
+            for e in entries:
+                if e[0] == "state":
+                    fsm_shapes(e[2], hist, depth + 1)
+        elif it[0] == "if":
+            for _c, b in it[1]:
+                fsm_shapes(b, hist, depth)
+            if it[2] is not None:
+                fsm_shapes(it[2], hist, depth)
+        elif it[0] == "switch":
+            for _p, b in it[2]:
+                fsm_shapes(b, hist, depth)
+
+
+def _has_next(body):
+    """is there an `m.next` for the FSM this body belongs to (not inside a nested FSM)?"""
+    for x in body:
+        if x[0] == "next":
+            return True
+        if x[0] == "if" and (any(_has_next(b) for _c, b in x[1]) or (x[2] is not None and _has_next(x[2]))):
+            return True
+        if x[0] == "switch" and any(_has_next(b) for _p, b in x[2]):
+            return True
+    return False
 
 
 def ser_stmts(stmts, sigidx):
